@@ -8,6 +8,7 @@ import (
 	"go/ast"
 	"go/token"
 	"go/types"
+	"hash/fnv"
 	"os"
 	"path/filepath"
 	"sort"
@@ -43,6 +44,9 @@ type Prog struct {
 
 	declOnce sync.Once
 	decls    map[string]*FuncDecl
+
+	renMu   sync.Mutex
+	renamed map[string]string
 }
 
 // FuncDecl couples a function declaration with its package.
@@ -151,12 +155,27 @@ func Load(lc LoadConfig) (*Prog, error) {
 			p.SSAPkg[ShortPath(pk.PkgPath)] = sp
 		}
 	}
+	canonNames = nil
+	inv := map[string]string{}
+	for name := range AnchorSigs {
+		if p.funcExact(name) == nil {
+			if r := p.renamedTo(name); r != "" {
+				inv[r] = name
+			}
+		}
+	}
+	if len(inv) > 0 {
+		canonNames = inv
+	}
 	altCache := map[string]string{}
 	AltName = func(name string) string {
 		if v, ok := altCache[name]; ok {
 			return v
 		}
 		v := p.altName(name)
+		if v == "" {
+			v = p.renamedTo(name)
+		}
 		altCache[name] = v
 		return v
 	}
@@ -235,6 +254,20 @@ func (p *Prog) CallGraph() *callgraph.Graph {
 // FuncName renders a function as "pkg.(*T).M", "pkg.F" or "pkg.F$1" with the
 // short package path ("tabula" for the root package).
 func FuncName(fn *ssa.Function) string {
+	n := funcNameRaw(fn)
+	if canon := canonNames; canon != nil {
+		if o, ok := canon[n]; ok {
+			return o
+		}
+	}
+	return n
+}
+
+// canonNames maps the present name of a renamed anchor (see renamedTo) back to the name the rules know it by, so that
+// every comparison of a callee's name with an anchor's name keeps working after a pure rename.
+var canonNames map[string]string
+
+func funcNameRaw(fn *ssa.Function) string {
 	if fn == nil {
 		return "<nil>"
 	}
@@ -279,6 +312,151 @@ func FuncName(fn *ssa.Function) string {
 // tree the rules were written against. Func and Decl fall back to the first host that still exists
 // when the function itself is gone (inlined into its caller and deleted).
 var AnchorHosts map[string][]string
+
+// Renamed anchors. OrigFuncs lists every function of the tree the rules were written against, AnchorCallers all the
+// callers of each unexported function there, AnchorSigs its signature (SigString). When an anchor no longer exists
+// and exactly one function that the old tree did not have has the anchor's signature and is called by every surviving
+// caller of the anchor, that function is the anchor under a new name (moved to another file or not).
+var (
+	OrigFuncs     map[string]bool
+	AnchorCallers map[string][]string
+	AnchorSigs    map[string]string
+)
+
+// SigString renders the receiver, parameter and result types of a function (no names).
+func SigString(fn *ssa.Function) string {
+	q := func(p *types.Package) string { return p.Name() }
+	var sb strings.Builder
+	sig := fn.Signature
+	if r := sig.Recv(); r != nil {
+		sb.WriteString("(" + types.TypeString(r.Type(), q) + ")")
+	}
+	sb.WriteString("(")
+	for i := 0; i < sig.Params().Len(); i++ {
+		if i > 0 {
+			sb.WriteString(",")
+		}
+		sb.WriteString(types.TypeString(sig.Params().At(i).Type(), q))
+	}
+	if sig.Variadic() {
+		sb.WriteString("...")
+	}
+	sb.WriteString(")(")
+	for i := 0; i < sig.Results().Len(); i++ {
+		if i > 0 {
+			sb.WriteString(",")
+		}
+		sb.WriteString(types.TypeString(sig.Results().At(i).Type(), q))
+	}
+	sb.WriteString(")")
+	return sb.String()
+}
+
+// RenamedTo: the present name of an anchor that was renamed, or "".
+func (p *Prog) RenamedTo(name string) string { return p.renamedTo(name) }
+
+// BodyPrint is a fingerprint of what a function's body says, independent of every name it declares: the sorted
+// constants it mentions and the functions outside the module it calls. It separates two renamed functions of the same
+// signature.
+func BodyPrint(fn *ssa.Function) string {
+	set := map[string]bool{}
+	Instrs(fn, true, func(in ssa.Instruction) {
+		for _, op := range in.Operands(nil) {
+			if op == nil || *op == nil {
+				continue
+			}
+			if c, ok := (*op).(*ssa.Const); ok && c.Value != nil {
+				set["c:"+c.Value.ExactString()] = true
+			}
+		}
+		if ci, ok := in.(ssa.CallInstruction); ok {
+			if cal := ci.Common().StaticCallee(); cal != nil && !InModule(cal) {
+				set["f:"+funcNameRaw(cal)] = true
+			}
+		}
+	})
+	keys := make([]string, 0, len(set))
+	for k := range set {
+		keys = append(keys, k)
+	}
+	sort.Strings(keys)
+	h := fnv.New64a()
+	for _, k := range keys {
+		h.Write([]byte(k))
+		h.Write([]byte{0})
+	}
+	return fmt.Sprintf("%d:%x", len(keys), h.Sum64())
+}
+
+// AnchorPrints: BodyPrint of every unexported function on the tree the rules were written against.
+var AnchorPrints map[string]string
+
+// renamedTo: the name the missing anchor `name` has now, or "".
+func (p *Prog) renamedTo(name string) string {
+	p.renMu.Lock()
+	defer p.renMu.Unlock()
+	if p.renamed == nil {
+		p.renamed = map[string]string{}
+	}
+	if r, ok := p.renamed[name]; ok {
+		return r
+	}
+	res := ""
+	defer func() { p.renamed[name] = res }()
+	sig, ok := AnchorSigs[name]
+	if !ok || p.funcExact(name) != nil {
+		return ""
+	}
+	var common map[string]bool
+	nHosts := 0
+	for _, h := range AnchorCallers[name] {
+		hf := p.funcExact(h)
+		if hf == nil {
+			continue
+		}
+		nHosts++
+		cands := map[string]bool{}
+		Instrs(hf, true, func(in ssa.Instruction) {
+			ci, ok := in.(ssa.CallInstruction)
+			if !ok {
+				return
+			}
+			cal := ci.Common().StaticCallee()
+			if cal == nil || cal.Pkg != hf.Pkg || cal.Parent() != nil || cal.Synthetic != "" {
+				return
+			}
+			n := funcNameRaw(cal)
+			if !OrigFuncs[n] && SigString(cal) == sig {
+				cands[n] = true
+			}
+		})
+		if common == nil {
+			common = cands
+		} else {
+			for n := range common {
+				if !cands[n] {
+					delete(common, n)
+				}
+			}
+		}
+	}
+	if nHosts > 0 && len(common) > 1 {
+		// several new functions of that signature (two siblings renamed at once): the one whose body says the same
+		want, has := AnchorPrints[name]
+		for n := range common {
+			if f := p.funcExact(n); !has || f == nil || BodyPrint(f) != want {
+				delete(common, n)
+			}
+		}
+	}
+	if nHosts == 0 || len(common) != 1 {
+		return ""
+	}
+	for n := range common {
+		res = n
+	}
+	return res
+}
 
 // altForms: the same unexported function written the other way round (a method turned into a plain function that
 // takes the receiver, or a plain function turned into a method): pkg.(*T).name <-> pkg.name. Exported names and
@@ -338,6 +516,9 @@ func (p *Prog) Func(name string) (fn *ssa.Function) {
 		if fn = p.funcExact(a); fn != nil {
 			return fn
 		}
+	}
+	if r := p.renamedTo(name); r != "" {
+		return p.funcExact(r)
 	}
 	for _, h := range AnchorHosts[name] {
 		if fn = p.funcExact(h); fn != nil {
@@ -457,6 +638,11 @@ func (p *Prog) Decl(name string) *FuncDecl {
 	if name != "" {
 		for _, a := range p.altForms(name) {
 			if d := p.decls[a]; d != nil {
+				return d
+			}
+		}
+		if r := p.renamedTo(name); r != "" {
+			if d := p.decls[r]; d != nil {
 				return d
 			}
 		}
